@@ -167,6 +167,8 @@ theorem step_closed (s : State) (e : Event) (h : s.released = true) :
   | autojoin => exact key _ (rc_foldl_join s.players s)
   | settle r => exact key _ (rc_settle s r)
   | «continue» ex => exact key _ (rc_continueGame s ex)
+  | contReset => exact key _ (rc_continueGame s true)
+  | tick ex => exact key _ (rc_nextMove s ex)
   | fire ch ok => exact key _ (rc_gateFire_released s ch ok h)
   | retry ch ok => exact key _ (rc_retryOpen_released s ch ok h)
 
